@@ -11,9 +11,10 @@ Definition ik (n : N) : ikind :=
   end.
 Definition ag (n : N) : aggsel :=
   match n with
-  | 0 => ASNil | 1 => ASDefault | 2 => ASDrop | 3 => ASSum | 4 => ASLast | 5 => ASHist | _ => ASExpo
+  | 0 => ASNil | 1 => ASDefault | 2 => ASDrop | 3 => ASSum | 4 => ASLast | 5 => ASHist | 6 => ASExpo
+  | _ => ASNil   (* an aggregation NewView rejects (Aggregation.err() <> nil) is not used: as if none was given *)
   end.
-Definition mkview (cn cd : bytes) (ck : N) (cu csn csv csu mn md mu : bytes) (a : N) (f : option (list bytes)) : view :=
+Definition mkview (cn cd : bytes) (ck : N) (cu csn csv csu mn md mu : bytes) (a : N) (f : option afilter) : view :=
   {| vc_name := cn; vc_desc := cd; vc_kind := if ck =? 0 then None else Some (ik ck); vc_unit := cu;
      vc_sname := csn; vc_sver := csv; vc_surl := csu;
      vm_name := mn; vm_desc := md; vm_unit := mu; vm_agg := ag a; vm_filter := f |}.
